@@ -399,11 +399,19 @@ class FakeSocket:
         peer = self._end.peer
         if peer.dead:
             raise BrokenPipeError(32, "Broken pipe")
-        hook = self._module.send_hook
-        if hook is not None:
-            hook(self, data)
-            return
         self._end.send(bytes(data))
+        proc = self._module.current_proc()
+        if proc is not None and proc.die_after_sends is not None:
+            proc.die_after_sends -= 1
+            if proc.die_after_sends <= 0:
+                # the process dies right after the complete request left
+                from .simproc import Killed
+
+                proc.die_after_sends = None
+                proc.killed = 9
+                proc.world.count("fault.client_death_after_send")
+                proc.world.log_event("fault", "client_death", proc.label)
+                raise Killed()
 
     def recv(self, n):
         if self._closed:
